@@ -29,7 +29,7 @@ func init() {
 	factFns = append(factFns, c13Facts)
 }
 
-func callName(e ast.Expr) (string, *ast.CallExpr) {
+func c13CallName(e ast.Expr) (string, *ast.CallExpr) {
 	c, ok := e.(*ast.CallExpr)
 	if !ok {
 		return "", nil
@@ -69,14 +69,14 @@ func c13Facts(l *leanDefs) {
 					stale = true
 					continue
 				}
-				name, call := callName(ret.Results[0])
+				name, call := c13CallName(ret.Results[0])
 				if call == nil {
 					stale = true
 					continue
 				}
 				r := row{op: exprStr(cc.List[0]), ctor: name}
 				for _, a := range call.Args {
-					if on, oc := callName(a); oc != nil {
+					if on, oc := c13CallName(a); oc != nil {
 						r.opts = append(r.opts, on)
 					}
 				}
@@ -100,7 +100,7 @@ func c13Facts(l *leanDefs) {
 		prop := ""
 		if fd != nil && fd.Body != nil && len(fd.Body.List) == 1 {
 			if ret, ok := fd.Body.List[0].(*ast.ReturnStmt); ok && len(ret.Results) == 1 {
-				if n, call := callName(ret.Results[0]); call != nil && n == "newDeleteOperation" && len(call.Args) > 0 {
+				if n, call := c13CallName(ret.Results[0]); call != nil && n == "newDeleteOperation" && len(call.Args) > 0 {
 					prop = exprStr(call.Args[0])
 				}
 			}
